@@ -28,6 +28,11 @@ dump of the run WITHOUT the deviating modules shows):
   spec.missing <reported 0/1> <changed>
      what the property demands of a run that holds a deviation naming no node
   -> holds | violates:not-reported | violates:not-reported+changed | violates:changed
+
+  spec.refused <allNamed 0/1> <allowed 0/1> <noTargetReported 0/1> <anyErrorReported 0/1>
+     the converse: what the property demands of a run whose every deviation names a node of the tree the
+     run without the deviating modules yields (spec.target), and (allowed) breaks no §7.20.3.2 condition
+  -> holds | violates:target-exists-but-reported-missing | violates:applicable-deviation-refused
 -/
 open Goyang Goyang.Proto Goyang.Spec.Deviate
 
@@ -127,6 +132,10 @@ def handle : List String → String
     match decBool rep, decNat ch with
     | some rep, some ch => Goyang.Spec.DevTarget.missingVerdict rep ch
     | _, _ => "bad-op"
+  | ["spec.refused", an, al, nt, ae] =>
+    match decBool an, decBool al, decBool nt, decBool ae with
+    | some an, some al, some nt, some ae => Goyang.Spec.DevTarget.refusedVerdict an al nt ae
+    | _, _, _, _ => "bad-op"
   | "spec.deviate" :: ins :: rest =>
     match decBool ins, decNode rest with
     | some ins, some (p, rest) =>
